@@ -822,6 +822,9 @@ func (x *Exec) goStmt(st *State, in *ssa.Go) {
 	}
 	// ghost: goroutines spawned per function on this path
 	{
+		if a, ok := x.prog.goAlias[label]; ok {
+			label = a
+		}
 		key := "go:" + label
 		cur, ok := st.ghostInt[key]
 		if !ok {
@@ -832,6 +835,20 @@ func (x *Exec) goStmt(st *State, in *ssa.Go) {
 	x.goCensus(st, label, in.Pos())
 	if fs == nil {
 		x.notes = append(x.notes, "go statement without contract on the spawned function: "+label)
+		inPkg := false
+		switch f := c.Value.(type) {
+		case *ssa.Function:
+			inPkg = f.Pkg == x.prog.spkg
+		case *ssa.MakeClosure:
+			inPkg = true
+		}
+		if inPkg {
+			// the body of the new goroutine would be outside the proof: nothing it does is checked and
+			// nothing the spawner's contract says about spawned work (ngo, nsent, ...) covers it. No such
+			// spawn exists on the unchanged tree.
+			x.oblige(st, "gospawn", label, "false", x.spec.Props,
+				"the spawned function "+label+" has no contract: the goroutine's body is not verified", in.Pos())
+		}
 		return
 	}
 	if len(fs.Params) > 0 {
